@@ -129,6 +129,13 @@ def correspond(ctx):
             for allow in (1, 0):
                 c.add("ecdsa_truncate %d %d %s %d" % (n, bl, hx(dg), allow),
                       lambda: "%d" % real_truncate(dg, n, bl, bool(allow)), "%s allow=%d" % (cls, allow))
+        # truthy / falsy non-bool flags (the model line carries bool(flag))
+        for cls, dg in trunc_digests(ctx, n, 1)[1:]:
+            if rng.random() < 0.5:
+                continue
+            for fname, fobj in sorted(E.FLAG_OBJECTS.items()):
+                c.add("ecdsa_truncate %d %d %s %d" % (n, bl, hx(dg), 1 if fobj else 0),
+                      lambda dg=dg, fobj=fobj: "%d" % real_truncate(dg, n, bl, fobj), "%s allow=%s (non-bool)" % (cls, fname), key=fname)
         # baselen is a separate attribute of the curve object: a few mismatched ones
         for bl2 in (0, 1, bl + 2):
             dg = bytes(rng.randrange(256) for _ in range(bl + 1))
@@ -269,8 +276,8 @@ def case_truncate(i):
     dg, n, allow = bytes.fromhex(i["digest"]), i["order"], i["allow_truncate"]
     from ecdsa.util import orderlen
     bl = orderlen(n)
-    exp = expected_truncate(dg, n, bl, allow)
-    got = E.call(lambda: real_truncate(dg, n, bl, allow))
+    exp = expected_truncate(dg, n, bl, bool(allow))
+    got = E.call(lambda: real_truncate(dg, n, bl, E.flag_obj(i)))
     if exp[0] == "any":
         return None if got[0] == "ok" else {"observed": got[1], "expected": "an integer"}
     if got[:2] != exp:
@@ -315,8 +322,13 @@ def case_sign_digest(i):
     d, k, dg, allow = i["d"], i["k"], bytes.fromhex(i["digest"]), i["allow_truncate"]
     te = expected_truncate(dg, n, cv.baselen, allow)
     dgo = E.wrap_bytes(dg, i.get("container"))
-    got = E.call(lambda: util.sigdecode_string(E.signing_key(cv, d).sign_digest(dgo, sigencode=util.sigencode_string, k=k,
-                                                                               allow_truncate=allow), n))
+    fl = E.flag_obj(i)
+    sk = E.signing_key(cv, d)
+    if i.get("call") == "positional":
+        # documented order: sign_digest(self, digest, entropy=None, sigencode=sigencode_string, k=None, allow_truncate=False)
+        got = E.call(lambda: util.sigdecode_string(sk.sign_digest(dgo, None, util.sigencode_string, k, fl), n))
+    else:
+        got = E.call(lambda: util.sigdecode_string(sk.sign_digest(dgo, sigencode=util.sigencode_string, k=k, allow_truncate=fl), n))
     if te[0] == "err":
         ok, want = (got[0] == "err" and got[2] == te[1]), te[1]
     elif te[0] == "any":
@@ -397,6 +409,13 @@ def search_truncate(ctx):
                              "truncate %s %s" % ("allow" if allow else "strict", "len>baselen" if L > bl else "8len>bits" if 8 * L > bitlen(n) else "fits")):
                         if E.capped(ctx):
                             return
+            # the flag as a truthy / falsy NON-bool value: the oracle uses bool(flag)
+            dg = pats[0]
+            for fname, fobj in sorted(E.FLAG_OBJECTS.items()):
+                if check(ctx, {"kind": "truncate", "order": n, "digest": dg.hex(), "allow_truncate": bool(fobj), "flag": fname},
+                         "truncate flag=%s %s" % (fname, "len>baselen" if L > bl else "8len>bits" if 8 * L > bitlen(n) else "fits")):
+                    if E.capped(ctx):
+                        return
 
 
 def search_toy(ctx):
@@ -446,6 +465,17 @@ def search_toy(ctx):
                         if check(ctx, {"kind": "sign_digest", "curve": spec, "d": d, "k": k, "digest": dg.hex(), "allow_truncate": allow},
                                  "toy sign_digest %s" % ("allow" if allow else "strict")) and E.capped(ctx):
                             return
+                # positional calls (documented parameter order) and truthy / falsy non-bool truncation flags
+                for dg in dgs[::8] + dgs[-4:]:
+                    for allow in (True, False):
+                        if check(ctx, {"kind": "sign_digest", "curve": spec, "d": d, "k": k, "digest": dg.hex(), "allow_truncate": allow,
+                                       "call": "positional"}, "toy sign_digest positional %s" % ("allow" if allow else "strict")) and E.capped(ctx):
+                            return
+                    for fname, fobj in sorted(E.FLAG_OBJECTS.items()):
+                        if check(ctx, {"kind": "sign_digest", "curve": spec, "d": d, "k": k, "digest": dg.hex(), "allow_truncate": bool(fobj),
+                                       "flag": fname, "call": rng.choice(("positional", "keyword"))},
+                                 "toy sign_digest flag=%s" % fname) and E.capped(ctx):
+                            return
                 # the same entry point on non-bytes bytes-like digests of 1..8 bytes (items of 1, 2 or 4 bytes)
                 for L in (1, 2, 4, 8):
                     for _ in range(2):
@@ -486,6 +516,9 @@ def search_named(ctx):
                                                                   "e": rng.choice((0, n, n + 1, rng.getrandbits(bitlen(n) + 9)))}))
     # sign_digest on non-bytes bytes-like digests, incl. digests longer than the order in BYTES but not in ITEMS
     extra = E.container_variants(rng, [x for x in cases if x[1]["kind"] == "sign_digest"], 0.3)
+    # every sign_digest case also as a POSITIONAL call (documented parameter order), some with a non-bool truncation flag
+    extra += [(tag + " [positional]", dict(case, call="positional")) for tag, case in cases if case["kind"] == "sign_digest"]
+    extra += E.flag_variants(rng, [x for x in cases if x[1]["kind"] == "sign_digest"], 0.3)
     for cv in E.small_named():
         n = int(cv.order)
         for kind in E.CONTAINERS:
